@@ -199,9 +199,10 @@ pub fn main(args: &util::Args) {
         let expected = std::fs::read_to_string(d.join("main.gom.out")).ok();
         one(&id, util::compile_path(&path, &src), &src, expected.as_deref(), &mut out);
     }
-    for sub in ["C02", "C08"] {
+    // (+ the coverage witnesses `corpus/C01/cov-*.gom`: shapes no generator produced, tools/coverage_audit.py)
+    for sub in ["C02", "C08", "C01"] {
         let Ok(rd) = std::fs::read_dir(util::verif_root().join("corpus").join(sub)) else { continue };
-        let mut files: Vec<_> = rd.filter_map(|e| e.ok().map(|e| e.path())).filter(|p| p.extension().is_some_and(|x| x == "gom")).collect();
+        let mut files: Vec<_> = rd.filter_map(|e| e.ok().map(|e| e.path())).filter(|p| p.extension().is_some_and(|x| x == "gom")).filter(|p| sub != "C01" || p.file_name().is_some_and(|n| n.to_string_lossy().starts_with("cov-"))).collect();
         files.sort();
         let dir = util::scratch_dir("c08c");
         for f in files {
